@@ -50,6 +50,7 @@ CONFIRM = {}
 
 NATIVE = dict(
     rumqttc=dict(modules=[('src/state.rs', 'state_v4.rs', 'verif_native'),
+                          ('src/v5/state.rs', 'state_v5.rs', 'verif_native'),
                           ('src/mqttbytes/topic.rs', 'topic_spec.rs', 'verif_native'),
                           ('src/v5/mqttbytes/mod.rs', 'topic_spec.rs', 'verif_native'),
                           ('src/mqttbytes/v4/mod.rs', 'decoder_spec.rs', 'verif_native_dec', dict(COPY='rumqttc::mqttbytes::v4::Packet::read', DECODE='Packet::read(stream, max)')),
@@ -57,6 +58,7 @@ NATIVE = dict(
     rumqttd=dict(modules=[('src/protocol/mod.rs', 'topic_spec.rs', 'verif_native'),
                           ('src/router/routing.rs', 'router_model.rs', 'verif_native'),
                           ('src/protocol/mod.rs', 'codec_spec.rs', 'verif_native_codec'),
+                          ('src/link/remote.rs', 'admission.rs', 'verif_native'),
                           ('src/protocol/v4/mod.rs', 'decoder_spec.rs', 'verif_native_dec', dict(COPY='rumqttd::protocol::v4::V4::read_mut', DECODE='V4.read_mut(stream, max)')),
                           ('src/protocol/v5/mod.rs', 'decoder_spec.rs', 'verif_native_dec', dict(COPY='rumqttd::protocol::v5::V5::read_mut', DECODE='V5.read_mut(stream, max)'))]),
 )
@@ -73,6 +75,13 @@ _CLIENT_STATE_TRUSTED = [
 ]
 
 PROPS = dict(
+    C19=dict(
+        verus=[], kani=[], native=['rumqttd'],
+        scope='handle_auth (static credentials / external callback / none x logins: exhaustive); Router::handle_new_connection: client-id metacharacters refused, at most one live connection per client id (newest replaces), connection limit respected (bounded exploration of the real Router)',
+        residual='mqtt_connect (first packet must be CONNECT of the listener protocol, non-zero keep-alive, empty client id only with clean session) reads from an async Network and is NOT covered; broker.rs listener code',
+        trusted_base=['rustc as compiled; tokio current-thread runtime to drive the async fn'],
+        assumptions=['BOUNDED stand-in: async fns and Router methods are outside Verus and Kani'],
+    ),
     C01=dict(
         verus=['commitlog', 'tracker'], kani=['rumqttd'], native=['rumqttd'],
         scope='components proved: commit log (a cursor that starts at the tail and follows continuations reads every later entry exactly once, in order: Verus), park/wake table (Verus + Kani), topic matching of the broker copy (bounded, C12 unit); router-level: exact delivery per subscription explored natively on the real Router (bounded stand-in)',
@@ -143,7 +152,7 @@ PROPS = dict(
         assumptions=['bounded in table size (max_inflight) only: quick n=2 (outgoing_publish n=1,2), thorough n=1..4; next_pkid is complete for all limits 1..=65535'],
     ),
     C10=dict(
-        verus=[], kani=['rumqttc'],
+        verus=[], kani=['rumqttc'], native=['rumqttc'],
         scope='rumqttc MqttState v4+v5: handle_incoming_{publish,pubrel,puback,pubrec,pubcomp}, outgoing_{puback,pubrec,disconnect,subscribe,unsubscribe,ping}: reply kind/id, manual_acks, unsolicited acks are errors with bookkeeping unchanged, exactly one Outgoing event per written packet',
         residual='Network::readb batching / flush and the order in which EventLoop pops events are async code (unverified composition); handle_incoming_packet dispatch (pushes Event::Incoming first) is read, not verified (Instant::now + large enum clone are outside CBMC reach in reasonable time)',
         trusted_base=_CLIENT_STATE_TRUSTED,
